@@ -47,7 +47,7 @@ def gen(tape: Tape, tier: str) -> dict:
         funcs=ARG + ARG + ["nanfirst", "nanlast", "nanfirst", "nanlast", "first", "last"],
         methods=("map-reduce", "cohorts", None),
         reindexes=(None, None, False),
-        dtypes=("f8", "f8", "i8", "i4", "f4"),
+        dtypes=("f8", "f8", "i8", "i4", "f4", "b1", "u1"),
         label_kinds=("int", "int", "float"),
         nan_p_choices=(0.0, 0.2, 0.5),
         max_n=36 if tier == "thorough" else 24,
